@@ -142,9 +142,9 @@ def c01_replay(params, tier):
 @family("C02", "C12", "C11")
 def c02_fanout(params, tier):
     if params is None:
-        return [{"n": n, "adder_sub": a, "order": o, "usage": u}
+        return [{"n": n, "adder_sub": a, "order": o, "usage": u, "bad": bad}
                 for n in (1, 2, 4) for a in (0, 1) for o in ("plain", "restart-bind-sweep-open", "bind-sweep-open", "sweeps-between")
-                for u in (0, 1)]
+                for u in (0, 1) for bad in (0, 1, 2)]
     p = params
     b = HB()
     b.tag = "c02"
@@ -154,6 +154,12 @@ def c02_fanout(params, tier):
     b.drop(seed)
     if p["order"] == "restart-bind-sweep-open":
         b.restart()
+    for i in range(p.get("bad", 0)):
+        # a bind outside the input space (client_version is not a pair) fails in the handler: not judged itself,
+        # but whatever bookkeeping it leaves behind must not cost later connections of the app their deliveries
+        x = b.conn()
+        b.send(x, type="bind", appid="app", side="s9", client_version=[None, [], 7][(i + p["n"]) % 3])
+        b.drop(x)
     subs = []
     for i in range(p["n"]):
         subs.append(b.conn("app", "s1" if i % 2 == 0 else "s2"))
@@ -344,6 +350,118 @@ def c05_after_cross_app_failure(params, tier):
     b.send(D, type="claim", nameplate="3")
     b.send(D, type="open", mailbox="xid")
     return [("c05_after_cross_app_failure:%s" % sorted(p.items()), b.h, U if p["usage"] else NU, {})]
+
+
+@family("C01", "C02", "C08", "C13")
+def after_cross_app_failure(params, tier):
+    """A client of another app names the id of a live mailbox (fails internally: known finding F8, owned by C06/C17).
+    Whatever that failed command leaves behind - it runs statements before it fails, and the next commit of anybody
+    makes them durable - the mailbox's own clients keep their messages, their subscriptions and a complete close."""
+    if params is None:
+        return [{"cmd": c, "usage": u, "sub": s} for c in ("open", "close") for u in (0, 1) for s in (0, 1)]
+    p = params
+    b = HB()
+    b.tag = "xapp"
+    A = b.conn("app", "s1")
+    b.send(A, type="open", mailbox="xid")
+    b.add(A, "pake")
+    b.add(A, "1")
+    B = None
+    if p["sub"]:
+        B = b.conn("app", "s2")
+        b.send(B, type="open", mailbox="xid")
+    X = b.conn("app2", "s1")
+    if p["cmd"] == "open":
+        b.send(X, type="open", mailbox="xid")
+    else:
+        b.send(X, type="close", mailbox="xid", mood="happy")
+    Y = b.conn("app", "s3")
+    b.send(Y, type="claim", nameplate="5")          # somebody else's commit
+    b.add(A, "after")
+    b.drop(A)
+    R = b.conn("app", "s1")
+    b.send(R, type="open", mailbox="xid")
+    b.add(R, "again")
+    b.send(R, type="close", mood="happy")
+    if B is not None:
+        b.add(B, "last")
+        b.send(B, type="close", mood="happy")
+    Z = b.conn("app", "s2")
+    b.send(Z, type="open", mailbox="xid")           # a new incarnation starts empty
+    return [("after_cross_app_failure:%s" % sorted(p.items()), b.h, U if p["usage"] else NU, {})]
+
+
+@family("C01", "C02", "C06")
+def scale(params, tier):
+    """Counts well above what the random histories reach: many apps bound between a client's bind and its open, many
+    subscribers on one mailbox, many stored messages, many mailboxes and nameplates side by side, a large body."""
+    if params is None:
+        return [{"what": w, "usage": u} for w in ("apps", "listeners", "messages", "mailboxes", "bigbody") for u in (0, 1)]
+    p = params
+    b = HB()
+    b.tag = "sc" + p["what"][0]
+    w = p["what"]
+    if w == "apps":
+        b1 = b.conn("app", "s1")
+        for i in range(1100):
+            b.conn("bulk-%d" % i, "s1")
+        b.send(b1, type="claim", nameplate="4")
+        b.send(b1, type="open", mailbox=claimed(b1))
+        b2 = b.conn("app", "s2")
+        b.send(b2, type="claim", nameplate="4")
+        b.send(b2, type="open", mailbox=claimed(b2))
+        b.add(b2, "pake")
+        b.add(b1, "pake")
+    elif w == "listeners":
+        cs = []
+        for i in range(70):
+            c = b.conn("app", "s1" if i % 2 == 0 else "s2")
+            b.send(c, type="open", mailbox="big")
+            cs.append(c)
+            if i in (1, 2, 3, 9, 33, 64, 65, 69):
+                b.add(c, "p%d" % i)
+        b.drop(cs[0])
+        b.add(cs[-1], "tail")
+        b.send(cs[1], type="close", mood="happy")
+        b.add(cs[2], "tail2")
+    elif w == "messages":
+        a = b.conn("app", "s1")
+        b.send(a, type="open", mailbox="log")
+        for i in range(520):
+            b.add(a, "%d" % i)
+        o = b.conn("app", "s2")
+        b.send(o, type="open", mailbox="log")
+        b.restart()
+        o2 = b.conn("app", "s2")
+        b.send(o2, type="open", mailbox="log")
+    elif w == "mailboxes":
+        for i in range(130):
+            c = b.conn("app" if i % 3 else "app2", "s1")
+            b.send(c, type="claim", nameplate="n%d" % i)
+            b.send(c, type="open", mailbox=claimed(c))
+            b.add(c, "pake")
+            if i % 2:
+                b.drop(c)
+        r = b.conn("app", "s2")
+        b.send(r, type="claim", nameplate="n127")
+        b.send(r, type="open", mailbox=claimed(r))
+        b.add(r, "reply")
+        r2 = b.conn("app2", "s2")
+        b.send(r2, type="claim", nameplate="n128")
+        b.send(r2, type="open", mailbox=claimed(r2))
+        b.send(r2, type="list")
+    elif w == "bigbody":
+        a = b.conn("app", "s1")
+        b.send(a, type="open", mailbox="fat")
+        o = b.conn("app", "s2")
+        b.send(o, type="open", mailbox="fat")
+        for n in (255, 256, 4096, 65536, 1 << 20):
+            b.nb += 1
+            b.send(a, type="add", phase="%d" % n, body="%s-%d-" % (b.tag, b.nb) + "f" * n)
+        b.drop(o)
+        o2 = b.conn("app", "s2")
+        b.send(o2, type="open", mailbox="fat")
+    return [("scale:%s" % sorted(p.items()), b.h, U if p["usage"] else NU, {})]
 
 
 @family("C05", "C14")
